@@ -9,6 +9,7 @@
 package main
 
 import (
+	"path"
 	"regexp"
 	"bytes"
 	"encoding/json"
@@ -172,6 +173,16 @@ func runChild(bin, prop string, seed uint64, planFile, tier, mode string, wall t
 	c.res = &r
 	// race-detector reports of the child become violations
 	for _, v := range raceViolations(prop, buf.String()) {
+		if pat, what, ok := knownOpen(prop, v.Clause, v.Class); ok {
+			if c.res.KnownHits == nil {
+				c.res.KnownHits, c.res.KnownWhat = map[string]int{}, map[string]string{}
+			}
+			c.res.KnownHits[pat]++
+			if c.res.KnownWhat[pat] == "" {
+				c.res.KnownWhat[pat] = what + " :: " + tail(v.Detail, 200)
+			}
+			continue
+		}
 		c.res.Violations = append(c.res.Violations, v)
 		if c.exit == 0 || c.exit == 66 {
 			c.exit = 1
@@ -189,45 +200,92 @@ func runChild(bin, prop string, seed uint64, planFile, tier, mode string, wall t
 	return c
 }
 
-var raceFrameRe = regexp.MustCompile(`^  (seata\.apache\.org/seata-go/.+)\(\)\s*$`)
+// knownOpen looks a (clause, class) up among the open known findings of prop
+// (same matching as the in-process filter: exact or path.Match glob).
+func knownOpen(prop, clause, class string) (pattern, what string, ok bool) {
+	b, err := os.ReadFile(filepath.Join(verifDir, "known_findings.jsonl"))
+	if err != nil {
+		return "", "", false
+	}
+	key := clause + "/" + class
+	for _, line := range strings.Split(string(b), "\n") {
+		line = strings.TrimSpace(line)
+		if line == "" || strings.HasPrefix(line, "#") {
+			continue
+		}
+		var e struct {
+			Property, Clause, Class, Status, What string
+		}
+		if json.Unmarshal([]byte(line), &e) != nil || e.Property != prop || e.Status != "open" {
+			continue
+		}
+		pat := e.Clause + "/" + e.Class
+		if pat == key {
+			return pat, e.What, true
+		}
+		if strings.ContainsAny(pat, "*?") {
+			if m, _ := path.Match(pat, key); m {
+				return pat, e.What, true
+			}
+		}
+	}
+	return "", "", false
+}
 
-// raceViolations parses "WARNING: DATA RACE" blocks; a report is classed by the
-// first client (seata-go) frame of each of its two stacks.
+var raceFrameRe = regexp.MustCompile(`^  (\S+)\(\)\s*$`)
+
+// raceViolations parses "WARNING: DATA RACE" blocks. A report counts when the
+// access site of at least one of its two stacks (first frame outside the Go
+// runtime) lies in the client; reports between two harness access sites are the
+// price of the quiet mutexes (simkit.QuietMutex) and are dropped. The class is
+// made of the first client frame of each stack.
 func raceViolations(prop, out string) []Violation {
 	var vs []Violation
 	seen := map[string]bool{}
 	blocks := strings.Split(out, "WARNING: DATA RACE")
+	const client = "seata.apache.org/seata-go/"
 	for _, b := range blocks[1:] {
 		if k := strings.Index(b, "=================="); k >= 0 {
 			b = b[:k]
 		}
-		var frames []string
-		cur := ""
+		type stack struct{ site, firstClient string }
+		var stacks []*stack
+		var cur *stack
 		for _, line := range strings.Split(b, "\n") {
 			switch {
 			case strings.HasPrefix(line, "Write at") || strings.HasPrefix(line, "Read at") || strings.HasPrefix(line, "Previous write at") || strings.HasPrefix(line, "Previous read at"):
-				if cur != "" || len(frames) > 0 {
-					frames = append(frames, cur)
-				}
-				cur = ""
-			case strings.HasPrefix(line, "Goroutine "):
-				frames = append(frames, cur)
-				cur = "-"
-			case cur == "":
+				cur = &stack{}
+				stacks = append(stacks, cur)
+			case strings.HasPrefix(line, "Goroutine ") || strings.HasPrefix(line, "Location"):
+				cur = nil
+			case cur != nil:
 				if m := raceFrameRe.FindStringSubmatch(line); m != nil {
-					cur = m[1]
+					fn := m[1]
+					if cur.site == "" && !strings.HasPrefix(fn, "runtime.") && !strings.HasPrefix(fn, "internal/") && !strings.HasPrefix(fn, "sync.") && !strings.HasPrefix(fn, "sync/") {
+						cur.site = fn
+					}
+					if cur.firstClient == "" && strings.HasPrefix(fn, client) {
+						cur.firstClient = fn
+					}
 				}
 			}
 		}
+		inClient := false
 		var fs []string
-		for _, f := range frames {
-			if f != "" && f != "-" {
-				f = strings.TrimPrefix(f, "seata.apache.org/seata-go/")
-				fs = append(fs, f)
+		for _, st := range stacks {
+			if strings.HasPrefix(st.site, client) {
+				inClient = true
 			}
+			f := st.firstClient
+			if f == "" {
+				f = st.site
+			}
+			f = strings.TrimPrefix(f, client)
+			f = strings.NewReplacer("/", ".", "(*", "", ")", "").Replace(f)
+			fs = append(fs, f)
 		}
-		if len(fs) == 0 {
-			fs = []string{"outside-the-client"}
+		if !inClient {
+			continue
 		}
 		if len(fs) > 2 {
 			fs = fs[:2]
